@@ -17,6 +17,11 @@ Init ==
           /\ Len(SelectSeq([i \in 1..n |-> <<o[i], q[i]>>], LAMBDA t : t[1].f /\ t[2].f)) >= 2
           /\ Cardinality({i \in 1..n : ~o[i].f \/ ~q[i].f}) <= 1
           /\ in = [kind |-> "stats", obs |-> o, pred |-> q, p |-> p, long |-> FALSE]
+     \* residual patterns of length 4 (the shortest series whose lag-1 autocorrelation is not +-1) against a constant observed
+     \* series: every autocorrelation regime, among them rho above (n-1)/(n+1), where the corrected n' drops below 1
+     \/ \E r \in [1..4 -> -2..3] :
+          in = [kind |-> "stats", obs |-> [i \in 1..4 |-> [f |-> TRUE, v |-> 10]], pred |-> [i \in 1..4 |-> [f |-> TRUE, v |-> 10 - r[i]]],
+                p |-> 1, long |-> FALSE, drift |-> TRUE]
      \/ \E cv \in GateClasses, pn \in GateClasses : in = [kind |-> "gate", cv |-> cv, pn |-> pn]
      \/ \E f \in {"hourly", "daily", "billing"}, nm \in {"good", "other", "poor", "tgaps"} : in = [kind |-> "stored", fam |-> f, name |-> nm]     \* tgaps: hours whose temperature had to be filled while the usage is real
   /\ out = [res |-> "pending"] /\ pc = "call"
@@ -32,5 +37,12 @@ Identities == (pc = "done" /\ in.kind = "stats") =>
   /\ (~e.rho2.u => Le(e.rho2.v, R(1)))
   /\ Le(Sq(e.mbe.v), e.rmse2.v)                      \* bias^2 <= mse
   /\ Le(Sq(e.mae.v), e.rmse2.v)                      \* mae <= rmse
+\* vacuity guard: the n' clause is exercised on both sides of n' = 1 (rho^2 above / below ((n-1)/(n+1))^2 with positive rho) and for negative rho
+NPrimeRegimesCovered == (pc = "done" /\ in.kind = "gate" /\ in.cv = "none" /\ in.pn = "none") =>      \* a constant statement: evaluated in one state
+  LET D == {r \in [1..4 -> -2..3] : TRUE}
+      I(r) == [kind |-> "stats", obs |-> [i \in 1..4 |-> [f |-> TRUE, v |-> 10]], pred |-> [i \in 1..4 |-> [f |-> TRUE, v |-> 10 - r[i]]], p |-> 1, long |-> FALSE]
+  IN /\ \E r \in D : NPrimeDefined(I(r)) /\ RhoSign(I(r)) = 1 /\ Lt(Q(9, 25), Rho2(I(r)))
+     /\ \E r \in D : NPrimeDefined(I(r)) /\ RhoSign(I(r)) = 1 /\ Lt(Rho2(I(r)), Q(9, 25))
+     /\ \E r \in D : NPrimeDefined(I(r)) /\ RhoSign(I(r)) = -1
 GateTable == \A cv, pn \in GateClasses : HourlyPoor(cv, pn) <=> (cv # "low" /\ pn \notin {"low", "mid"})
 =============================================================================
